@@ -184,7 +184,7 @@ def ev_optimize(c_raw, obj, maximize, via="contract"):
     from pacti.iocontract import Var
 
     c = gen.mk_contract(c_raw, simplify=False)
-    rows = C.prows(c.a | c.g)
+    rows = C.prows(c.a) + C.prows(c.g)      # the rows as stored, not through the library's own union
     if via == "contract":
         v, exc = _ans(lambda: c.optimize(obj_str(obj), maximize))
     elif via == "bounds":
